@@ -9,7 +9,8 @@
     int32 agrees while every position, size and n stays below 2^31 - 64. *)
 From Coq Require Import ZArith List Bool Sorted.
 From Low Require Import Lib.Bits Lib.BitSeq Model.BuilderOps Model.BitmapOf Spec.OfSpec
-  Proofs.OfProofs Proofs.OfInspect Proofs.OfRoundTrip Proofs.BuilderProofs.
+  Proofs.OfProofs Proofs.OfInspect Proofs.OfRoundTrip Proofs.BuilderProofs
+  Model.BitmapMask Spec.MaskSpec Proofs.MaskProofs.
 Import ListNotations.
 Open Scope Z_scope.
 
@@ -175,6 +176,32 @@ Theorem C12_Builder_Extend_Of : forall n subs sizes,
 Proof. exact Builder_Extend_Of. Qed.
 Print Assumptions C12_Builder_Extend_Of.
 
+(** * widening: the mask tables of bitmap/mask.go (Get/SafeGet read [Bit]) *)
+(** every read of Mask/RMask (any integer index): the closed forms 2^i - 1 / 2^64 - 2^i inside 0..64,
+    a panic outside *)
+Theorem C12_Mask_table : forall i,
+  mask_at i = if (0 <=? i) && (i <=? 64) then Some (Mask i, RMask i) else None.
+Proof. exact mask_at_exact. Qed.
+Print Assumptions C12_Mask_table.
+
+Theorem C12_Bit_table : forall i,
+  bit_at i = if (0 <=? i) && (i <? 64) then Some (MaskUpto i, RMaskUpto i, Bit i, RBit i) else None.
+Proof. exact bit_at_exact. Qed.
+Print Assumptions C12_Bit_table.
+
+(** which bits the entries have: Mask[j] the low j bits, RMask[j] the other bits of the word *)
+Theorem C12_Mask_bits : forall j t, 0 <= j <= 64 -> 0 <= t ->
+  Z.testbit (Mask j) t = (t <? j) /\ Z.testbit (RMask j) t = ((j <=? t) && (t <? 64)).
+Proof. exact mask_bits. Qed.
+Print Assumptions C12_Mask_bits.
+
+(** MaskUpto[j] bits 0..j, RMaskUpto[j] the bits above j, Bit[j] bit j only, RBit[j] all but bit j *)
+Theorem C12_Bit_bits : forall j t, 0 <= j < 64 -> 0 <= t ->
+  Z.testbit (MaskUpto j) t = (t <=? j) /\ Z.testbit (RMaskUpto j) t = ((j <? t) && (t <? 64)) /\
+  Z.testbit (Bit j) t = (t =? j) /\ Z.testbit (RBit j) t = (negb (t =? j) && (t <? 64)).
+Proof. exact bit_bits. Qed.
+Print Assumptions C12_Bit_bits.
+
 (** * non-vacuity *)
 (** Of: positions at 63/64/65 and a gap of more than 3 words, n smaller than last+1 *)
 Example C12_Of_nonvacuous :
@@ -223,4 +250,10 @@ Example C12_Builder_nonvacuous :
     = {| abits := [1; 70; 200; 0; 201]; aoff := 202 |} /\
   usort [1; 70; 200; 0; 201] = [0; 1; 70; 200; 201] /\
   ones (flat [3; 64; 0; 2^8 + 2^9]) = [0; 1; 70; 200; 201].
+Proof. vm_compute. intuition congruence. Qed.
+
+(** mask tables: the wrap at index 64 ([1 << 64 = 0], [0 - 1 = 2^64 - 1]) and the first index outside *)
+Example C12_Mask_nonvacuous :
+  mask_at 64 = Some (2^64 - 1, 0) /\ mask_at 0 = Some (0, 2^64 - 1) /\ mask_at 65 = None /\ mask_at (-1) = None /\
+  bit_at 63 = Some (2^64 - 1, 0, 2^63, 2^63 - 1) /\ bit_at 64 = None.
 Proof. vm_compute. intuition congruence. Qed.
